@@ -221,17 +221,66 @@ theorem T5_server_flags (tc : TCfg) (tf : TFiles) (req : Mode) (c : Ctx) (h s : 
 
 /-- **T5 (end to end).** Under the assumed OpenSSL semantics, a `verifyPeer` server admits NO client that presents no
 certificate, and admits a client with a certificate only if it chains to the configured store, is inside its validity
-period and is owned by the client — whatever the rest of the configuration. -/
+period and is owned by the client — whatever the rest of the configuration, INCLUDING a cipher string that enables
+anonymous suites (a certificate request cannot be answered in an anonymous handshake, so it fails). -/
 theorem T5_server_admits_only_valid (H : Handshake) (hA : H.Assumed) (tc : TCfg) (tf : TFiles) (req : Mode) (c : Ctx)
     (h s : Option String) (hp : listenPlan tc tf req = .tls c h s) (hv : tc.server.verifyPeer = true)
     (a : Anchors) (p : CliPeer) (v : Int) (hr : H.server c a p = some v) :
-    ∃ cc, p.cert = some cc ∧ chains cc a = true ∧ cc.inTime = true ∧ cc.possession = true := by
+    p.kind = .tls ∧ ∃ cc, p.cert = some cc ∧ chains cc a = true ∧ cc.inTime = true ∧ cc.possession = true := by
   obtain ⟨hpe, hfail, _⟩ := T5_server_flags tc tf req c h s hp hv
-  cases hcc : p.cert with
-  | none =>
-    have := hA.server_nocert c a p v hr hpe hcc
-    rw [hfail] at this; cases this
-  | some cc => exact ⟨cc, rfl, hA.server_verify c a p v cc hr hpe hcc⟩
+  cases hk : p.kind with
+  | plaintext => rw [hA.server_nontls c a p (by simp [hk]) (by simp [hk])] at hr; cases hr
+  | garbage => rw [hA.server_nontls c a p (by simp [hk]) (by simp [hk])] at hr; cases hr
+  | anon =>
+    rw [hA.server_anon c a p hk] at hr
+    unfold anonServer at hr
+    rw [hpe, hfail] at hr
+    simp at hr
+  | tls =>
+    refine ⟨rfl, ?_⟩
+    cases hcc : p.cert with
+    | none =>
+      have := hA.server_nocert c a p v hk hr hpe hcc
+      rw [hfail] at this; cases this
+    | some cc => exact ⟨cc, rfl, hA.server_verify c a p v cc hk hr hpe hcc⟩
+
+/-- **T3 (client authentication, general form).** For EVERY configuration whose cipher string does not enable anonymous key
+exchange, every file state, target, trust store content and peer: a client session with `verifyPeer` that completes the
+handshake faces a TLS peer that owns a certificate which chains to the context's store, is inside its validity period and —
+when the target is a host name — is issued for that name. -/
+theorem T3_client_authenticated (H : Handshake) (hA : H.Assumed) (tc : TCfg) (tf : TFiles) (req : Mode) (t : Target) (c : Ctx)
+    (h s : Option String) (hp : connectPlan tc tf req t = .tls c h s) (hv : tc.client.verifyPeer = true)
+    (hc : tc.client.ciphers ≠ .enablesAnon) (a : Anchors) (p : SrvPeer) (v : Int) (hr : H.client c h a p = some v) :
+    p.kind = .tls ∧ p.cert.possession = true ∧ chains p.cert a = true ∧ p.cert.inTime = true ∧
+    (∀ n, t = .name n → p.cert.names.contains n = true) := by
+  have hb := (connectPlan_tls hp).1
+  have hanon : c.anon = false := by
+    rw [(client_built _ _ _ hb).2.2.2.2]; cases hcc : tc.client.ciphers <;> simp_all
+  have hpe := (T3_client_verify tc tf req t c h s hp hv).1
+  cases hk : p.kind with
+  | plaintext => rw [hA.client_nontls c h a p (by simp [hk]) (by simp [hk])] at hr; cases hr
+  | garbage => rw [hA.client_nontls c h a p (by simp [hk]) (by simp [hk])] at hr; cases hr
+  | anon =>
+    rw [hA.client_anon c h a p hk] at hr
+    unfold anonClient at hr
+    rw [hanon] at hr
+    simp at hr
+  | tls =>
+    have hch := hA.client_verify c h a p v hk hr hpe
+    refine ⟨rfl, hA.client_possession c h a p v hk hr, hch.1, hch.2, ?_⟩
+    intro n hn
+    subst hn
+    have hh := (T4_engine_hostcheck tc tf req n c h s hp).2 hv
+    subst hh
+    exact hA.client_name c n a p v hk hr hpe
+
+/-- the hypothesis on the cipher string is NEEDED (documented behaviour, reproduced by the `anon` cells of the harness): with
+`ciphers` enabling anonymous suites (e.g. `ALL:@SECLEVEL=0`) a `verifyPeer` client completes a handshake with a peer that
+shows no certificate at all -/
+example :
+    let tc : TCfg := { client := { enabled := true, defaultMode := .client, verifyPeer := true, caFileSet := true, ciphers := .enablesAnon } }
+    let peer : SrvPeer := { kind := .anon, cert := CertKind.selfSigned.props, ceil := 771 }
+    clientOutcome Ossl.ref (connectPlan tc {} .client (.name theHost)) .right .empty peer = some 771 := by decide
 
 /-! ## the HTTP front ends hand their TLS settings to the engine -/
 
@@ -343,19 +392,20 @@ theorem T6_client_only_if (H : Handshake) (hA : H.Assumed) (c : CliCell) (v : In
 
 /-! ## T7 / T8 — nothing is announced or sent before the handshake is done; nothing ever goes out raw -/
 
-/-- **T7.** For EVERY sequence of I/O-thread events (socket writable, `SSL_do_handshake` results, application sends),
-a TLS session (a) never hands application bytes to `::send` raw, and (b) as long as no `SSL_do_handshake` returned 1
-it announces nothing and writes nothing at all — sends are queued (`doSend` handshake branch) and dropped with the
-session if the handshake fails. -/
+/-- **T7.** For EVERY sequence of I/O-thread events (immediate-connect check, epoll events with any `SSL_do_handshake` answer,
+application sends), a TLS session (a) never hands application bytes to `::send` raw — neither from `doSend` nor from
+`writePending` — and (b) as long as no `SSL_do_handshake` returned 1 it announces nothing and writes nothing at all: sends
+are queued and dropped with the session if the handshake fails.  The machine consumes every guard fact of `Gen`, so the
+theorem fails when any of them disappears from the source. -/
 theorem T7_tls_session_never_clear (s : Sess) (evs : List SEv) (h : s.IsTls) :
     (∀ bs, SOut.rawWire bs ∉ sessRun s evs) ∧
-    (s.tlsState = .handshake → s.announced = false → SEv.handshake (some true) ∉ evs → ∀ o ∈ sessRun s evs, o = .onClose) :=
-  ⟨sessRun_tls_no_raw s evs h, fun hs ha hev => sessRun_pending s evs ⟨h.1, Or.inl hs, ha⟩ hev⟩
+    (s.tlsState = .handshake → s.announced = false → (∀ e ∈ evs, e.isHsOk = false) → ∀ o ∈ sessRun s evs, o = .onClose) :=
+  ⟨sessRun_tls_no_raw s evs h, fun hs ha hev => sessRun_pending s evs ⟨h.1, h.2.1, Or.inl hs, ha⟩ hev⟩
 
 /-- **T8.** Plan and session machine together: whatever the configuration, for a request with TLS (`req ≠ None`) the
 session that `connect` creates — if any — never emits a raw application byte, for every event sequence. -/
 theorem T8_requested_tls_never_clear (tc : TCfg) (tf : TFiles) (req : Mode) (t : Target) (hreq : req ≠ .none)
-    (s : Sess) (hs : (connectPlan tc tf req t).session true = some s) (evs : List SEv) :
+    (s : Sess) (hs : (connectPlan tc tf req t).session true req = some s) (evs : List SEv) :
     ∀ bs, SOut.rawWire bs ∉ sessRun s evs := by
   cases hp : connectPlan tc tf req t with
   | plain => exact absurd hp (T1_connect_never_plain tc tf req t hreq)
@@ -364,11 +414,11 @@ theorem T8_requested_tls_never_clear (tc : TCfg) (tf : TFiles) (req : Mode) (t :
     simp only [hp, Plan.session, Option.some.injEq] at hs
     subst hs
     have hrole := (T3_tls_only_if_enabled tc tf req t c h sn hp).2.2
-    exact sessRun_tls_no_raw _ evs ⟨by simp [hrole], by simp⟩
+    exact sessRun_tls_no_raw _ evs ⟨hreq, by simp [hrole], by simp⟩
 
 /-- same for sessions accepted on a listener requested with TLS -/
 theorem T8_listener_tls_never_clear (tc : TCfg) (tf : TFiles) (req : Mode) (hreq : req ≠ .none)
-    (s : Sess) (hs : (listenPlan tc tf req).session false = some s) (evs : List SEv) :
+    (s : Sess) (hs : (listenPlan tc tf req).session false req = some s) (evs : List SEv) :
     ∀ bs, SOut.rawWire bs ∉ sessRun s evs := by
   cases hp : listenPlan tc tf req with
   | plain => exact absurd hp (T1_listen_never_plain tc tf req hreq)
@@ -377,13 +427,67 @@ theorem T8_listener_tls_never_clear (tc : TCfg) (tf : TFiles) (req : Mode) (hreq
     simp only [hp, Plan.session, Option.some.injEq] at hs
     subst hs
     have hrole := (server_built _ _ _ (listenPlan_tls hp).1).1
-    exact sessRun_tls_no_raw _ evs ⟨by simp [hrole], by simp⟩
+    exact sessRun_tls_no_raw _ evs ⟨hreq, by simp [hrole], by simp⟩
 
-/-- non-vacuity: early send, failed handshake — nothing but the close comes out; early send, successful handshake — the
-bytes go to `SSL_write` after the announce -/
-example : sessRun { tlsMode := .client, tlsState := .handshake } [.appSend [1, 2], .writable, .handshake none, .handshake (some false)] = [.onClose] := by decide
-example : sessRun { tlsMode := .client, tlsState := .handshake } [.appSend [1, 2], .handshake (some true), .appSend [3]] =
-    [.onConnect, .sslWrite [1, 2], .sslWrite [3]] := by decide
+/-- **T7 (handshake outcomes).** For every session in the handshake and either kind of epoll event: `WANT_READ/WRITE` changes
+nothing and emits nothing (the handshake stays pending, the queue stays queued); a fatal result closes the session, DROPS the
+queue and reports exactly one close. -/
+theorem T7_handshake_outcomes (s : Sess) (out : Bool) (hh : s.inHs = true) (hc : s.closed = false) :
+    sessStep s (.epoll out none) = (s, []) ∧
+    sessStep s (.epoll out (some false)) = ({ s with closed := true, wq := [] }, [.onClose]) := by
+  simp [sessStep, driveHs, leakOnIncomplete, hh, hc, handshakeDrivenFirst, handshakeReturnsWhenIncomplete, wantIoKeepsHandshake,
+    failureCloses, openOnlyOnRc1, connectCbOnlyOnRc1]
+
+/-- non-vacuity: the machine DOES something with early data — it stays queued across writable events while the handshake
+is incomplete, is dropped with a failed handshake, and goes to `SSL_write` (after the announce) once it succeeds -/
+example : sessRun { req := .client, tlsMode := .client, tlsState := .handshake }
+    [.appSend [1], .immediate, .epoll true none, .epoll true none, .epoll false (some false)] = [.onClose] := by decide
+example : sessRun { req := .client, tlsMode := .client, tlsState := .handshake }
+    [.appSend [1], .epoll true none, .epoll true (some true), .appSend [3], .epoll true none] =
+    [.onConnect, .sslWrite [1], .sslWrite [3]] := by decide
+example : sessRun { req := .server, tlsMode := .server, tlsState := .handshake, connectPending := false }
+    [.appSend [7], .epoll false none, .epoll false (some true), .epoll true none] = [.onConnect, .sslWrite [7]] := by decide
+/-- and a plain session (requested as such) does write raw: the invariant is not vacuous -/
+example : sessRun { } [.immediate, .appSend [1]] = [.onConnect, .rawWire [1]] := by decide
+
+/-! ## T10 — the TLS settings of an `HttpClient` are the ones last accepted by `setTlsConfig` -/
+
+/-- **T10.** For EVERY history of `setTlsConfig` calls, requests and DNS accessors on one `HttpClient`: the settings the
+transport's client context was built from are the settings `setTlsConfig` accepted last — a call that could not take effect
+any more (the transport exists and the settings differ) throws instead of being silently ignored.  In particular
+`setTlsConfig{verifyPeer=false}; get; setTlsConfig{verifyPeer=true}; get` never runs its second request unverified while
+reporting success of the reconfiguration. -/
+theorem T10_settings_in_force (ops : List HOp) :
+    (hRun {} ops).applied = none ∨ (hRun {} ops).applied = some (hRun {} ops).stored :=
+  hRun_coherent {} ops (Or.inl rfl)
+
+example : (hStep (hRun {} [.setTls { verifyPeer := false }, .touch]) (.setTls { verifyPeer := true })).2 = true := by decide
+example : hRun {} [.setTls { verifyPeer := false }, .setTls { verifyPeer := true, caFileSet := true }, .touch] =
+    { stored := { verifyPeer := true, caFileSet := true }, applied := some { verifyPeer := true, caFileSet := true } } := by decide
+
+/-! ## pins on generated facts that the model takes for granted -/
+
+/-- configuration-affecting OpenSSL calls occur only in the functions the model mirrors (every call, prefixed or not, is
+inventoried by the translator; unknown names are a translator error) -/
+def confined (name : String) (allowed : List String) : Bool :=
+  match sslCallInventory.find? (fun x => x.1 == name) with
+  | some (_, fns) => fns.all (fun f => allowed.contains f)
+  | none => true
+
+/-- **Gen pins.** The contexts are built with the TLS (not DTLS, not version-specific) methods; a failing `SSL_set1_host`
+ends the connect; `localhost` resolves to an address literal (so `httpTarget` is right to treat resolved names as IP
+targets); verification-relevant calls are confined to `initTls` / `applyTls12Floor` / `doConnect` / `onListener`. -/
+theorem Gen_pins :
+    serverCtx.method = "TLS_server_method" ∧ clientCtx.method = "TLS_client_method" ∧
+    connectSite.set1hostFailClosed = true ∧ httpClientLocalhost = "127.0.0.1" ∧
+    plainAnnounceRequiresModeNone = true ∧          -- redundant with the handshake branch of onSession (defence in depth): pinned, not needed by T7
+
+    confined "SSL_CTX_set_verify" ["initTls"] = true ∧ confined "SSL_CTX_set_cipher_list" ["initTls"] = true ∧
+    confined "SSL_CTX_load_verify_locations" ["initTls"] = true ∧ confined "SSL_CTX_set_default_verify_paths" ["initTls"] = true ∧
+    confined "SSL_CTX_set_min_proto_version" ["applyTls12Floor"] = true ∧ confined "SSL_new" ["doConnect", "onListener"] = true ∧
+    confined "SSL_set1_host" ["doConnect"] = true ∧ confined "SSL_set_tlsext_host_name" ["doConnect"] = true ∧
+    confined "SSL_do_handshake" ["driveHandshake"] = true ∧ confined "SSL_write" ["doSend", "writePending"] = true := by
+  decide
 
 /-- the hypotheses about OpenSSL are satisfiable: the executable reference is an instance -/
 theorem assumptions_consistent : Ossl.ref.Assumed := ref_assumed
